@@ -6,7 +6,11 @@ One harness (harness/fixed_string.cpp, compiled once per capacity and linked), o
     ok|throw <class>  r=<result> len=<n> buf=<content> sl=<strlen> all=<hash of the L+1 buffer bytes>
                       [t.len= t.buf=]  e.r=<result> e.len= e.buf=     (what std::string / Model.StdString gives, cut at L)
     model only:       dom=0|1   (arguments inside C11's documented domain, CelmaVerif.FixedString.inDomain)
-    harness only:     a leading `!! guard ...` / `!! wf ...` when the C10 oracle fails on the implementation
+    harness only:     a leading `!! guard ...` / `!! wf ...` / `!! mirror ...` when the C10 oracle fails on the implementation
+
+The harness runs every line twice: on objects between guard bytes (writes next to the object) and on mirror objects
+that are alone in heap blocks of exactly sizeof( FixedString< N>) bytes (ASan sees every read or write outside the object;
+argument buffers are exact-size blocks too); both must give the same line, an access outside aborts the run (= crash).
 
 Input lines: `new <L> [<S>]` (capacity of s/t, capacity of u; default 9), then one operation per line.  Source tokens
 `s:`/`c:` are hex, or segments `<hex>+<hex pattern>x<count>` (pattern repeated cyclically to <count> bytes) so that
@@ -38,7 +42,11 @@ NPARTS = len(CAPS) + len(CAPS_U)
 
 _TRUSTED = [
     "hand-written model CelmaVerif/Model/FixedString.lean of fixed_string.hpp and the two iterator headers, tied by the "
-    "correspondence run (harness/fixed_string.cpp, in-process, ASan+UBSan, guard arenas) on every invocation",
+    "correspondence run (harness/fixed_string.cpp, in-process, ASan+UBSan; every operation on an object between guard bytes "
+    "and, in lock-step, on a mirror object in a heap block of exactly sizeof( FixedString< L>) bytes with exact-size argument "
+    "buffers, so that reads outside the object or an argument are reported too; an over-read that stays inside the object "
+    "(from mString into the mLength member / the padding before it) is visible only to UBSan's array-bounds check of "
+    "mString[ idx], not inside memcmp/memcpy) on every invocation",
     "libc memcpy/memmove/memset/memcmp/strlen/strchr as modelled by the checked primitives (Mem.read/write/move, fill, "
     "cstrlen); vsnprintf modelled as 'writes min(n, size-1) bytes and a NUL, returns n'",
     "Model/StdString.lean (textbook definitions over List Byte) as the meaning of 'what std::string does'; compared with "
@@ -70,7 +78,7 @@ PROPERTIES = {
 }
 
 RULE = ("cases are independent histories on three fresh objects (s: capacity L, t: capacity L, u: capacity 9, or the capacity named by `new L S`); one "
-        "evaluation = one operation line run on the real class, on a real std::string twin, on the Lean model and on "
+        "evaluation = one operation line run on the real class (twice: guard-byte arena and exact-size heap mirror), on a real std::string twin, on the Lean model and on "
         "Model/StdString; distinct_nontrivial = distinct (operation, capacity class, result class, length class before, "
         "length class after, in-domain flag) tuples")
 
@@ -511,30 +519,43 @@ def sit(rng, L):
 
 
 def fill_lines(rng, L, hostile):
-    """bring s, t and u into an interesting state: empty, short, nearly full, full"""
+    """bring s, t and u into an interesting state: empty, short, nearly full, full.
+    Returns (lines, content of s as a Src)"""
     lines = []
     mode = rng.random()
+    X = Src()
     if mode < 0.15:
         pass
     elif mode < 0.45:
-        lines.append("assign_s s:" + hx(content(rng, L, rng.randint(0, min(L, 12)), hostile)))
+        b = content(rng, L, rng.randint(0, min(L, 12)), hostile)
+        X = lit(b)
+        lines.append("assign_s s:" + hx(b))
     elif L <= 300:
         n = max(0, rng.choice([L, L, L - 1, L - 2, L - 3, L // 2]))
-        lines.append("assign_s s:" + hx(content(rng, L, n, hostile)))
+        b = content(rng, L, n, hostile)
+        X = lit(b)
+        lines.append("assign_s s:" + hx(b))
     else:
-        lines.append("assign_s s:" + hx(content(rng, L, rng.randint(1, 9), False)))
-        lines.append("append_cc %s %s" % (rng.choice(["@rem", "@rem-1", "@rem-2", "@rem-3", "@rem-5"]), ch(rng)))
+        b = content(rng, L, rng.randint(1, 9), False)
+        lines.append("assign_s s:" + hx(b))
+        less, c = rng.choice([0, 1, 2, 3, 5]), ch(rng)
+        lines.append("append_cc %s %s" % ("@rem-%d" % less if less else "@rem", c))
+        X = Src([(b, None), (bytes.fromhex(c), L - len(b) - less)])
     tl = rng.choice([0, 1, 2, 3, 5, min(L, 7), min(L, 12), L if L <= 300 else 9])
     lines.append("tset s:" + hx(content(rng, L, tl, hostile)))
     lines.append("uset s:" + hx(content(rng, SU, rng.choice([0, 1, 2, 3, 5, 8, 9, 12]), hostile)))
-    return lines
+    return lines, X
 
 
 def random_case(rng, cid, hostile):
     x = rng.random()
     L = rng.choice([1, 2, 3, 4, 5, 7, 8, 15, 16] if x < 0.55 else [254, 255, 256, 257] if x < 0.90 else [65534, 65535, 65536])
-    lines = ["new %d" % L] + fill_lines(rng, L, hostile)
+    fl, X = fill_lines(rng, L, hostile)
+    lines = ["new %d" % L] + fl
     noscan = L > 300 and any(l.startswith("append_cc @rem") for l in lines)
+    # the content is known here: search / compare arguments that stick out behind its end (see overhang_needles)
+    if len(X) >= 1 and 0 not in X.slice(0, 16).bytes() and rng.random() < 0.6:
+        lines += overhang_probe(rng, L, X)
     for _ in range(rng.randint(3, 14)):
         lines.append(gen_op(rng, L, hostile, noscan))
     return Case(cid, lines)
@@ -1009,6 +1030,140 @@ def width_cases(rng, full):
     return cases
 
 
+
+# ---- search strings that stick out behind the end of a (nearly) full content -------------------------------------
+#
+# Added after seeded defect C10-3 (containsImpl: start positions up to mLength-1 instead of mLength-str_len): a search
+# or comparison that tries a start position too close to the end calls memcmp on [idx, idx+m) and reads over the
+# terminator, over mLength and out of the object.  The answer is never wrong (the terminator differs), nothing is
+# written: only the sanitizer on the mirror object (exact-size heap block, harness/fixed_string.cpp) can see it, and
+# only when (1) the content is full or nearly full, (2) the first character of the search string occurs in the last
+# m-1 characters (the code tests `mString[ idx] == str[ 0]` before memcmp), (3) the search string is not found earlier
+# and (4) the last compared index n+o-1 (n = length, o = number of characters sticking out) is >= sizeof( FixedString< L>).
+# `overhang_needles` builds exactly these arguments from the known content, for every search / compare / copy operation.
+
+
+def fs_sizeof(L):
+    """sizeof( FixedString< L>): char[ L + 1], then LengthType< L>::type at its alignment (no tail padding)"""
+    w = 1 if L <= 255 else 2 if L <= 65535 else 4
+    return (L + 1 + w - 1) // w * w + w
+
+
+# (capacity, model fast enough for index-by-index scans)
+OVERHANG_TARGETS = [(4, True), (5, True), (7, True), (8, True), (15, True), (16, True), (254, True), (255, True), (256, True),
+                    (257, True), (65535, False), (65536, False)]
+
+# {S} {C}: the needle as std::string / C string, {T} {U}: t / u hold it (cut at their capacity), {i}: a position at or
+# next to the start of the overhang, {c1}: a count around the needle length, {p2} {c2}: position / count inside the needle,
+# {k2}: a count <= its length + 1, {fp}: a search start position, {h}: its first character
+OVERHANG_OPS = [
+    "ct_s {S}", "ct_p {C}", "ct_f {T}", "ct_f {U}", "ct_c {h}",
+    "sw_s {S}", "sw_p {C}", "sw_f {T}", "sw_f {U}", "ew_s {S}", "ew_p {C}", "ew_f {T}", "ew_f {U}", "ew_c {h}",
+    "cmp_s {S}", "cmp_p {C}", "cmp_f {T}", "cmp_f {U}", "eq {T}", "eq {U}", "ne {T}", "ne {U}",
+    "cmp_ccs {i} {c1} {S}", "cmp_ccp {i} {c1} {C}", "cmp_ccf {i} {c1} {T}", "cmp_ccf {i} {c1} {U}",
+    "cmp_ccscc {i} {c1} {S} {p2} {c2}", "cmp_ccfcc {i} {c1} {T} {p2} {c2}", "cmp_ccfcc {i} {c1} {U} {p2} {c2}",
+    "cmp_ccpc {i} {c1} {C} {k2}",
+    "{fam}_s {S} {fp}", "{fam}_s0 {S}", "{fam}_pp {C} {fp}", "{fam}_p0 {C}", "{fam}_ppc {C} {fp} {k2}", "{fam}_f {T} {fp}",
+    "{fam}_f0 {T}", "{fam}_c {h} {fp}",
+    "substr {i} {c1}", "substr_p {i}", "copy {c1} {i}", "copy_c {c1}", "at {i}", "it_deref {i}", "back", "c_str", "str",
+]
+
+
+def overhang_needles(rng, L, X):
+    """[(needle, i, critical, inside)] for the content X (a Src): i = the position of X where the needle starts to
+    match, critical = a memcmp of the whole needle at i ends outside the object, inside = not longer than X"""
+    n = len(X)
+    out_o = fs_sizeof(L) - n + 1          # from this overhang on the last compared index is outside the object
+    fill = lambda k: Src([(bytes(rng.sample(list(b"xyzw#~"), 3)), k)])      # X is over other characters: never found
+    res = []
+    for i in sorted({n - 1, n - 2, n - 3, n - 4, n - 6, n - 9, n - rng.randint(1, min(n, 12))}):
+        if i < 0:
+            continue
+        for o in sorted({1, 2, out_o - 1, out_o, out_o + 1, out_o + 3, out_o + 8}):
+            if o < 1:
+                continue
+            m = n - i + o
+            res.append((X.slice(i, n) + fill(o), i, o >= out_o, m <= n))
+    for k in sorted({1, 2, out_o, out_o + 5}):         # the content and more: starts_with / compare / == with a longer string
+        if k >= 1:
+            res.append((X + fill(k), 0, k >= out_o, False))
+    for k in (1, 2, 17):                               # ends_with a longer string: the start would lie before the object
+        res.append((fill(k) + X, 0, True, False))
+    for i in sorted({0, n // 2, n - 2, n - 1}):        # really contained: suffixes, a prefix, the content itself
+        if 0 <= i < n:
+            res.append((X.slice(i, n), i, False, True))
+    if n > 1:
+        res.append((X.slice(0, n - 1), 0, False, True))
+    return res
+
+
+def overhang_ops(rng, L, X, needle, i, templates, per_template=1):
+    """operation lines (preceded by tset / uset when the needle is passed as a FixedString) for one needle"""
+    n, m = len(X), len(needle)
+    first = "%02x" % needle.bytes()[:1][0] if m <= 64 else "%02x" % needle.slice(0, 1).bytes()[0]
+    tok = needle.tok()
+    lines, loaded = [], set()
+    for tpl in templates:
+        for _ in range(per_template):
+            fam = rng.choice(FIND_FAMILIES[:2] * 3 + FIND_FAMILIES) if "{fam}" in tpl else None
+            pi = rng.choice([i, i, max(0, i - 1), "@len-1", "@len"])
+            c1 = rng.choice([m, m, "npos", n - i, n - i + 1, max(0, m - 1), m + 1])
+            p2 = rng.choice([0, 0, 1, max(0, m - 1)])
+            c2 = rng.choice([m, "npos", max(0, m - p2), m + 1])
+            k2 = rng.choice([m, m, max(0, m - 1), m + 1, min(m, n - i)])
+            fp = rng.choice([0, 0, i, i, max(0, i - 1), i + 1, max(0, n - m), max(0, n - m) + 1, "@len-1", "@len-2", "@len", "npos", "npos"])
+            op = tpl.format(S="s:" + tok, C="c:" + tok, T="t", U="u", i=pi, c1=c1, p2=p2, c2=c2, k2=k2, fp=fp, h=first, fam=fam)
+            for obj, word in (("t", "tset"), ("u", "uset")):
+                if op.split(" ")[1:].count(obj) and obj not in loaded:
+                    lines.append("%s s:%s" % (word, tok))
+                    loaded.add(obj)
+            lines.append(op)
+    return lines
+
+
+def overhang_probe(rng, L, X):
+    """a few overhang operations for a random history whose content X is known at this point"""
+    cands = overhang_needles(rng, L, X)
+    crit = [c for c in cands if c[2]] or cands
+    needle, i, _, _ = rng.choice(crit if rng.random() < 0.7 else cands)
+    tpls = [t for t in OVERHANG_OPS if L <= 300 or not t.replace("{fam}", "find").startswith(SCANNING)]
+    return overhang_ops(rng, L, X, needle, i, rng.sample(tpls, rng.choice([1, 2, 3])))
+
+
+def overhang_cases(rng, full):
+    cases = []
+    for L, scans in OVERHANG_TARGETS:
+        lens = [L, rng.choice([L - 1, L - 2])] if not full else [L, L - 1, L - 2, max(1, L - 5)]
+        for xi, n in enumerate(lens):
+            X = width_content(rng, n)
+            cands = overhang_needles(rng, L, X)
+            by_needle = {}
+            for tpl in OVERHANG_OPS:
+                if not scans and tpl.replace("{fam}", "find").startswith(SCANNING):
+                    continue
+                fams = 6 if "{fam}" in tpl else 1
+                pools = [[k for k, c in enumerate(cands) if c[2] and c[3]], [k for k, c in enumerate(cands) if c[2]],
+                         list(range(len(cands)))]
+                for _ in range(fams):
+                    picks = set()
+                    for pool in pools * (3 if full else 1):
+                        if pool:
+                            picks.add(rng.choice(pool))
+                    for k in picks:
+                        by_needle.setdefault(k, []).append(tpl)
+            header = ["new %d" % L, "assign_s s:" + X.tok()]
+            lines = list(header)
+            for k in sorted(by_needle):
+                needle, i, _, _ = cands[k]
+                lines += overhang_ops(rng, L, X, needle, i, by_needle[k])
+                if len(lines) > 160:
+                    cases.append(Case("o%d.%d.%d" % (L, xi, len(cases)), lines))
+                    lines = list(header)
+            if len(lines) > len(header):
+                cases.append(Case("o%d.%d.%d" % (L, xi, len(cases)), lines))
+    return cases
+
+
 def generate(prop, tier, seed, scale=1):
     rng = random.Random("%s-%s" % (prop, seed))
     n = (700 if tier == "quick" else 20000) * scale
@@ -1021,6 +1176,9 @@ def generate(prop, tier, seed, scale=1):
     wrng = random.Random("%s-%s-width" % (prop, seed))
     yield "width boundaries of the length type (argument lengths, counts and positions around 2^8 / 2^16 / 2^64)", \
         width_cases(wrng, tier != "quick")
+    orng = random.Random("%s-%s-overhang" % (prop, seed))
+    yield "search strings sticking out behind the end of a full or nearly full content (over-reads of the object)", \
+        overhang_cases(orng, tier != "quick")
     if tier == "quick":
         yield "exhaustive L<=2 over {a,b}, args 0..L+2 u {npos}", exhaustive_cases(2, 0)
     else:
